@@ -1164,3 +1164,106 @@ CONCRETE["e2e:C20-programs"] = {
              "a third of the cases again on ONE opened image object after an earlier listing of every program and an export",
     "timeout_s": 120.0, "budget_quick": 200, "budget_thorough": 1200,
 }
+
+
+# ================================================================================== C11 at image level: sample streams of ONE opened image, interleaved
+# The streams of a two-partition AKAI image (two volumes in the first partition, fragmented chains) are obtained through the public
+# tree - directories are realised lazily, in the order the schedule first touches them - and then read in interleaved blocks.  Each
+# stream must deliver exactly the sample's PCM window, whatever was listed, opened or read in between.
+def _build_img_inter(inputs):
+    L = _lib()
+
+    def run():
+        model = expand_akai(_base_akai(inputs.get("k", 0)))
+        raw = L.aw.build_akai_image(model)
+        with L.Workdir() as w:
+            p = w.file("img.akai", raw)
+            image = L.open_image(p)
+            image.set_routines({"make_safe_names": image.make_safe_names_routine, "make_export_names": image.make_export_names_routine})
+            streams, got = {}, {}
+            for step in inputs["schedule"]:
+                op, path = step[0], step[1]
+                if op == "ls":
+                    image.parse_path(path).get_info().to_string()
+                    continue
+                if path not in streams:
+                    s = image.parse_path(path).to_generalized().data_streams[0].stream
+                    s.seek(0, 0)
+                    streams[path] = s
+                    got[path] = b""
+                if op == "read":
+                    got[path] += bytes(streams[path].read(step[2]))
+                elif op == "seek":          # re-position to where this stream's own reading stands (a no-op for an isolated reader)
+                    streams[path].seek(len(got[path]), 0)
+            # drain what is left, round robin in small blocks
+            live = list(streams)
+            while live:
+                for path in list(live):
+                    b = bytes(streams[path].read(inputs.get("drain_block", 1500)))
+                    got[path] += b
+                    if not b:
+                        live.remove(path)
+            return {"got": {k: v.hex() for k, v in got.items()}}
+    return {"call": run, "env": {}}
+
+
+def _oracle_img_inter(inputs, kind, val, env):
+    L = _lib()
+    if kind != "return":
+        return ["oracle.no-exception-expected"]
+    model = expand_akai(_base_akai(inputs.get("k", 0)))
+    want = {}
+    for rel, (pcm, _rate) in L.akai_expected_mono(model).items():
+        part, vol, name = rel[:-4].split("/")
+        want[f"{part}:/{vol}/{name}"] = pcm
+    bad = []
+    for path, hx in val["got"].items():
+        if bytes.fromhex(hx) != want[path]:
+            g = bytes.fromhex(hx)
+            first = next((i for i, (a, b) in enumerate(zip(g, want[path])) if a != b), min(len(g), len(want[path])))
+            bad.append(f"oracle.stream-delivers-its-own-sample({path}: {len(g)} bytes, expected {len(want[path])}, first difference at {first})")
+    return bad
+
+
+def _small_img_inter(tier, seed, shard=(0, 1)):
+    import itertools
+    import random
+    rnd = random.Random(12000 + seed)
+    paths = ["A:/VOL A/KICK", "A:/VOL A/SNARE", "A:/VOL A/LONG", "A:/VOL B/HAT", "B:/LAST/X1", "B:/LAST/X2"]
+    cases = []
+    # every ordered pair of streams from different directories, alternating blocks; a listing of a third directory in between
+    for a, b in itertools.permutations(paths, 2):
+        if a.rsplit("/", 1)[0] == b.rsplit("/", 1)[0] and tier == "quick":
+            continue
+        other = next(p for p in ("B:/LAST", "A:/VOL B", "A:/VOL A") if not a.startswith(p) and not b.startswith(p))
+        cases.append([["read", a, 700], ["read", b, 700], ["ls", other], ["read", a, 8192], ["read", b, 3], ["seek", a], ["read", a, 5000], ["ls", "B:"],
+                      ["read", b, 9000], ["ls", ""], ["read", a, 1]])
+    for _ in range(10 if tier == "quick" else 200):
+        sched = []
+        for _ in range(rnd.randint(4, 14)):
+            r = rnd.random()
+            if r < 0.2:
+                sched.append(["ls", rnd.choice(["", "A:", "B:", "A:/VOL A", "A:/VOL B", "B:/LAST"] + paths)])
+            elif r < 0.3:
+                sched.append(["seek", rnd.choice(paths)])
+            else:
+                sched.append(["read", rnd.choice(paths), rnd.choice((1, 2, 100, 4096, 8191, 8192, 8193, 20000))])
+        cases.append(sched)
+    for k, c in enumerate(cases):
+        if k % shard[1] == shard[0]:
+            yield {"schedule": c, "k": k % 3, "drain_block": (1500, 4096, 8192)[k % 3]}
+
+
+@contract("bounded:image_stream_interleavings", props=["C11"], abstract=True)
+def _bisi(c):
+    pass
+
+
+CONCRETE["bounded:image_stream_interleavings"] = {
+    "build": _build_img_inter, "small": _small_img_inter, "oracle": _oracle_img_inter, "shards": 4,
+    "nontrivial": lambda i, s: s["kind"] == "return",
+    "bound": "a two-partition AKAI image (three directories, six samples, fragmented chains): every ordered pair of sample streams from different directories "
+             "(thorough: every ordered pair) read in alternating blocks with listings of other directories in between, directories realised lazily in schedule order; "
+             "10 / 200 random schedules of reads (1..20000 bytes), re-seeks and listings over all six streams; every stream compared with its sample's PCM window",
+    "timeout_s": 60.0, "budget_quick": 120, "budget_thorough": 900,
+}
